@@ -9,6 +9,8 @@ def parseWP (s : String) : WP :=
 def parsePaths (s : String) : List WP := if s.isEmpty then [] else (s.splitOn ",").map parseWP
 def parseKind (s : String) : Kind := if s == "P" then .poll else .native
 
+def shapeCount (sh : String) : Nat := if sh == "s" || sh == "1" then 1 else if sh == "s1" || sh == "2" then 2 else 0
+
 def report (s : St) : String × St :=
   let calls := (s.log.toArray.qsort (· < ·)).toList
   let live := match s.watcher with
@@ -26,7 +28,11 @@ def stepOp (acc : St × List String) (op : String) : St × List String :=
     let s := runWorker 16 { s with ver := s.ver + 1, pendingWake := true }
     let (r, s) := report s; (s, out ++ [r])
   | ["hook", n, ps, k] => ({ s with hooks := [(n, { paths := parsePaths ps, kind := parseKind k })] }, out)
-  | ["failw", n] => ({ s with failW := n :: s.failW }, out)
+  | ["failw", n] => ({ s with failW := n :: s.failW, named := s.named.filter (·.1 != n) }, out)
+  -- `failw:<name>:<shape>` / `failu:<name>:<shape>`: what the injected notify error names — `0` nothing, `s` the configured path itself,
+  -- `1` one other path (a child), `s1` the configured path and a child, `2` two children
+  | ["failw", n, sh] => ({ s with failW := n :: s.failW, named := (n, shapeCount sh) :: s.named.filter (·.1 != n) }, out)
+  | ["failu", n, sh] => ({ s with failU := n :: s.failU, named := (n, shapeCount sh) :: s.named.filter (·.1 != n) }, out)
   | ["okw", n] => ({ s with failW := s.failW.filter (· != n) }, out)
   | ["failu", n] => ({ s with failU := n :: s.failU }, out)
   | _ => (s, out ++ ["bad-op"])
